@@ -75,7 +75,11 @@ def run(ctx):
     # order-sensitive mechanisms (SCC discovery order, tableau construction) on larger structures
     sens = [('CTL', ('E', ('G', P))), ('CTL', ('E', ('G', TR))), ('CTL', ('A', ('F', P))), ('CTL', ('E', ('G', ('or', P, Q)))),
             ('CTL', ('A', ('U', P, Q))), ('LTL', ('A', ('F', P))), ('LTL', ('A', ('G', ('F', P)))), ('LTL', ('A', ('U', P, Q))),
-            ('CTLS', ('E', ('G', ('F', P)))), ('CTLS', ('A', ('F', ('G', P)))), ('CTLS', ('E', ('and', ('G', P), ('F', Q))))]
+            ('CTLS', ('E', ('G', ('F', P)))), ('CTLS', ('A', ('F', ('G', P)))), ('CTLS', ('E', ('and', ('G', P), ('F', Q)))),
+            ('CTL', ('E', ('U', P, Q))), ('CTL', ('E', ('U', P, ('not', P)))), ('CTL', ('A', ('R', Q, P))), ('CTL', ('E', ('R', P, Q))),
+            # negated next-time formulas reach the LTL tableau through CTL* (tie-breaking of the closure order)
+            ('CTLS', ('A', ('G', ('X', ('not', P))))), ('CTLS', ('A', ('and', Q, ('X', ('not', P))))), ('CTLS', ('E', ('and', ('F', ('X', ('not', P))), ('G', Q)))),
+            ('CTLS', ('A', ('or', ('X', ('not', P)), ('G', ('not', ('X', Q)))))), ('LTL', ('A', ('G', ('X', ('not', P))))), ('LTL', ('A', ('U', ('not', ('X', P)), ('X', ('not', Q)))))]
     for _ in range(300 if q else 3000):
         lg, f = rnd.choice(sens)
         n = rnd.choice([4, 5, 6, 7]) if lg == 'CTL' else rnd.choice([3, 4, 5])
